@@ -189,7 +189,7 @@ func (w *verifWorld) inv(check func(bool, string)) {
 		check(gp != nil && gp.gb == gb, "C04: I-pick picker of another balancer")
 		cur = gp
 		for j := 0; j < vR; j++ {
-			check(verifInPicker(gp, w.refs[j]) == w.ready(w.refs[j]), "C04: I-pick published picker's slots are not exactly the READY pool connections")
+			check(verifInPicker(gp, w.refs[j]) == w.ready(w.refs[j]), "C02,C03,C04: I-pick published picker's slots are not exactly the READY pool connections")
 		}
 	}
 	// pickers hold duplicate-free lists of listed slots
